@@ -182,8 +182,8 @@ type Solver struct {
 	SampleK   int
 	Samples   []SampledQuery
 	sampleRng *rand.Rand
-	nq         int
-	Log        io.Writer
+	nq        int
+	Log       io.Writer
 }
 
 // Primary selects the deciding solver (the other two are used for cross-checking).
